@@ -212,6 +212,12 @@ Definition metric_with_delta (base : Z) (delta : res Z) : option Z :=
   | Panic => None
   end.
 
+(* skrifa metrics.rs FixedScaleFactor::apply (raw 16.16 result, converted with to_f32 afterwards); the identity
+   scale of Size::unscaled() is Fixed::from_bits(0x10000 * 64) (skrifa instance.rs fixed_linear_scale) *)
+Definition scale_apply (scale value : Z) : Z := fixed_mul_div scale value 64.
+Definition metric_unscaled (base : Z) (delta : res Z) : option Z :=
+  do v <- metric_with_delta base delta ;; Some (scale_apply 4194304 v).
+
 (* ================= 3. VariationStoreBuilder ================= *)
 
 Definition axis_eqb (a b : Z * Z * Z) : bool :=
@@ -609,7 +615,7 @@ Definition check_case (c : case) : bool :=
       zl_eqb (match dsim_get fmt mc data index with Some (o, i) => [o; i] | None => [] end) out
   | CPack mapping fmt mc data =>
       let '(f, c, d) := pack_map_data mapping in (f =? fmt) && (c =? mc) && zl_eqb d data
-  | CMetric base delta out => zl_eqb (opt_out (metric_with_delta base (Ok delta))) [out]
+  | CMetric base delta out => zl_eqb (opt_out (metric_unscaled base (Ok delta))) [out]
   | CBuild direct inputs ids partition out remap => check_build direct inputs ids partition out remap
   | CRowBytes sh ds out => zl_eqb (row_bytes sh O (encode_row sh ds)) out
   end.
